@@ -39,6 +39,27 @@ def groups : Nat → List ASet → List ASet
 
 def separableGroups (sets : List ASet) : List ASet := groups sets.length sets
 
+/-! ## which separable group is the celestial pair -/
+
+/-- an output frame as `_separable_groups` sees it: its world axis numbers and whether it is a `CelestialFrame` -/
+structure FrameI where
+  axes : List Nat
+  cel : Bool
+  deriving Repr, Inhabited
+
+/-- `find_frame`: the first frame that lists the axis -/
+def findFrame (frames : List FrameI) (ax : Nat) : Option FrameI := frames.find? (fun f => f.axes.contains ax)
+
+/-- the celestial test for one group (sorted world axes): two axes, the frame of the first one a 2-axis celestial frame, and the second
+axis in that same frame ("celestial axes must belong to the same frame") -/
+def celestialGroup (frames : List FrameI) (s : List Nat) : Bool :=
+  match s with
+  | [a, b] =>
+    match findFrame frames a with
+    | some f => f.cel && f.axes.length == 2 && f.axes.contains b
+    | none => false
+  | _ => false
+
 /-! ## tabulated axis -/
 
 def absR (x : Rat) : Rat := if x < 0 then -x else x
